@@ -238,6 +238,11 @@ type Backend interface {
 
 	DeleteMulti(bucketName string, objects ...string) (MultiDeleteResult, error)
 
+	// CopyObject copies the source object to the destination. meta holds the
+	// metadata sent with the copy request; for the keys not in it the
+	// destination carries over the source object's metadata (the ACL is not
+	// preserved). Body and metadata must come from one and the same source
+	// object; the gofakes3.CopyObject helper takes care of both.
 	CopyObject(srcBucket, srcKey, dstBucket, dstKey string, meta map[string]string) (CopyObjectResult, error)
 }
 
@@ -343,6 +348,16 @@ func CopyObject(db Backend, srcBucket, srcKey, dstBucket, dstKey string, meta ma
 		return
 	}
 	defer c.Contents.Close()
+
+	// merge metadata, ACL is not preserved
+	if meta == nil {
+		meta = map[string]string{}
+	}
+	for k, v := range c.Metadata {
+		if _, found := meta[k]; !found && k != "X-Amz-Acl" {
+			meta[k] = v
+		}
+	}
 
 	_, err = db.PutObject(dstBucket, dstKey, meta, c.Contents, c.Size)
 	if err != nil {
